@@ -298,6 +298,88 @@ theorem L_iltSum (pfs : List (PF K)) (s : K) (ho : ∀ pf ∈ pfs, ∀ x ∈ pf.
     rw [ilt_laplace' E pf s (ho pf (by simp)), ih (fun q hq => ho q (by simp [hq]))]
 
 
+/-! ### every term the synthesis produces carries the delay of its factor -/
+
+/-- every term of the signal carries the delay `T` -/
+def AllDelay (T : K) (f : ExpPoly K) : Prop := ∀ t ∈ f, t.delayOf = T
+
+theorem AllDelay.append {T : K} {f g : ExpPoly K} (hf : AllDelay T f) (hg : AllDelay T g) : AllDelay T (f ++ g) := by
+  intro t ht; rcases List.mem_append.mp ht with h | h
+  · exact hf t h
+  · exact hg t h
+
+theorem allDelay_iltQgo (b : Bool) (len deg : Nat) (T : K) : ∀ (C : List K) (n : Nat), AllDelay T (iltQgo b len deg T n C) := by
+  intro C
+  induction C with
+  | nil => intro n t ht; simp [iltQgo] at ht
+  | cons c cs ih =>
+    intro n t ht
+    simp only [iltQgo, List.mem_cons] at ht
+    rcases ht with rfl | h
+    · rfl
+    · exact ih (n + 1) t h
+
+theorem allDelay_iltQsrc [DecidableEq K] (T : K) (q : Poly K) : AllDelay T (iltQsrc T q) := by
+  unfold iltQsrc; exact allDelay_iltQgo _ _ _ _ _ _
+
+theorem allDelay_cosSin (J Ac As al om T : K) : AllDelay T (cosSin J Ac As al om T) := by
+  intro t ht; simp [cosSin] at ht; rcases ht with rfl | rfl <;> rfl
+
+theorem allDelay_conjPair [DecidableEq K] (J r rc p pc T : K) : AllDelay T (conjPair J r rc p pc T) := by
+  unfold conjPair; simp only; split <;> exact allDelay_cosSin _ _ _ _ _ _
+
+theorem allDelay_ratfunLoop [DecidableEq K] (J : K) (conj : K → K) (T : K) :
+    ∀ (fuel : Nat) (R : List (K × K × Nat)), AllDelay T (ratfunLoop J conj T fuel R) := by
+  intro fuel
+  induction fuel with
+  | zero => intro R t ht; simp [ratfunLoop] at ht
+  | succ fuel ih =>
+    intro R
+    cases R with
+    | nil => intro t ht; simp [ratfunLoop] at ht
+    | cons y R =>
+      obtain ⟨r, p, o⟩ := y
+      simp only [ratfunLoop]
+      split
+      · split
+        · exact (allDelay_conjPair _ _ _ _ _ _).append (ih _)
+        · intro t ht; rcases List.mem_cons.mp ht with rfl | h
+          · rfl
+          · exact ih _ t h
+      · intro t ht; rcases List.mem_cons.mp ht with rfl | h
+        · rfl
+        · exact ih _ t h
+
+theorem allDelay_dsSignal (J : K) (f : Gen.DSIn K → K) (x : Gen.DSIn K) (T : K) : AllDelay T (dsSignal J f x T) := by
+  intro t ht
+  simp only [dsSignal, expCos, expSin, List.mem_cons, List.mem_append, List.mem_nil_iff, or_false] at ht
+  rcases ht with rfl | (rfl | rfl) | (rfl | rfl) <;> rfl
+
+theorem allDelay_dampedSin [DecidableEq K] (J : K) (nc dc : List K) (sq1 sq2 T : K) (c u : ExpPoly K)
+    (h : dampedSin J nc dc sq1 sq2 T = some (c, u)) : AllDelay T (c ++ u) := by
+  unfold dampedSin at h
+  split at h
+  · dsimp only at h
+    split at h
+    · exact absurd h (by simp)
+    · simp only [Option.some.injEq, Prod.mk.injEq] at h
+      obtain ⟨rfl, rfl⟩ := h
+      exact (allDelay_dsSignal _ _ _ _).append (allDelay_dsSignal _ _ _ _)
+  · dsimp only at h
+    split at h
+    · exact absurd h (by simp)
+    · simp only [Option.some.injEq, Prod.mk.injEq] at h
+      obtain ⟨rfl, rfl⟩ := h
+      exact (allDelay_dsSignal _ _ _ _).append (allDelay_dsSignal _ _ _ _)
+  · dsimp only at h
+    split at h
+    · exact absurd h (by simp)
+    · simp only [Option.some.injEq, Prod.mk.injEq] at h
+      obtain ⟨rfl, rfl⟩ := h
+      exact (allDelay_dsSignal _ _ _ _).append (allDelay_dsSignal _ _ _ _)
+  · exact absurd h (by simp)
+
+
 /-! ### the exclusive assumptions -/
 section assumptions
 omit [Field K]
